@@ -1642,6 +1642,11 @@ func main() {
 	for _, td := range order {
 		ids = append(ids, fmt.Sprintf("ty_%d", td.Id))
 	}
+	sb.WriteString("(* type ids by name, for property statements that mention a particular type *)\n")
+	for _, td := range order {
+		fmt.Fprintf(&sb, "Definition id_%s_%s : N := %d%%N.\n", strings.ReplaceAll(td.Pkg, "-", "_"), td.Name, td.Id)
+	}
+	sb.WriteString("\n")
 	fmt.Fprintf(&sb, "Definition env : list tydef := [%s].\n\n", strings.Join(ids, "; "))
 	var tbs []string
 	for _, k := range tblNames {
